@@ -1020,17 +1020,19 @@ def w_random(args) -> dict:
 DEFECTS = {
     # defect flag -> switch that models it (value as coded / repaired), and the small configuration whose
     # shortest counter-example (BFS, one worker) is the signature history of the finding
-    "staleResched": {"switch": "FencedOps", "coded": "FALSE", "fixed": "TRUE", "qmax": 3,
+    "staleResched": {"switch": "FencedOps", "coded": "FALSE", "fixed": "TRUE", "qmax": 3, "formulas": ["OneHolder"],
                      "cex": dict(nclients=3, nmsgs=1, replays=0, crashes=0, notfound=0, qmax=3, invariants=["OneHolder"]),
                      "cex_switches": {"SweepLocked": "FALSE"}},
-    "sweptInFlight": {"switch": "SweepLocked", "coded": "TRUE", "fixed": "FALSE", "qmax": QMAX,
+    "sweptInFlight": {"switch": "SweepLocked", "coded": "TRUE", "fixed": "FALSE", "qmax": QMAX, "formulas": ["OneHolder"],
                       "cex": dict(nclients=2, nmsgs=1, replays=1, crashes=0, notfound=0, invariants=["OneHolder"]),
                       "cex_switches": {"AllowStaleOps": "FALSE"}},
     "replayLimit": {"switch": "ReplayDefaultLimit", "coded": "TRUE", "fixed": "FALSE", "qmax": QMAX,
+                    "formulas": ["NoStrandedRow", "ReplayUnchanged"],
                     "cex": dict(nclients=1, nmsgs=1, replays=1, crashes=0, notfound=0, invariants=["NoStrandedRow"]),
                     "cex_switches": {"AllowStaleOps": "FALSE", "SweepLocked": "FALSE"}},
     # not a defect of C08 but a coded behaviour the binding depends on (observation O1)
     "danglingTxn": {"switch": "DanglingTxn", "coded": "TRUE", "fixed": "FALSE", "qmax": QMAX, "observation": True,
+                    "formulas": [],
                     "cex": dict(nclients=1, nmsgs=1, replays=1, crashes=0, notfound=1, invariants=["NoDanglingTxn"]),
                     "cex_switches": {"AllowStaleOps": "FALSE", "SweepLocked": "FALSE", "ReplayDefaultLimit": "FALSE"}},
 }
@@ -1109,7 +1111,7 @@ def plan(tier: str) -> dict:
     if os.environ.get("VERIF_C08_BINDING_ONLY"):     # development aid (mutation runs): skip pure model checking
         mc, live = [], []
     return {"mc": mc, "live": live, "graphs": graphs,
-            "replay_budget_s": 25 if q else 480, "random_traces": 160 if q else 1600, "random_steps": 80 if q else 120}
+            "replay_budget_s": 22 if q else 480, "random_traces": 128 if q else 1600, "random_steps": 80 if q else 120}
 
 
 def run(pid: str, tier: str, seed: int) -> int:
@@ -1180,7 +1182,7 @@ def run(pid: str, tier: str, seed: int) -> int:
             if v["machinery"]:
                 rep.machinery_failure(v["machinery"])
                 continue
-            hits = [f for f in v["failed"] if d in f["flags"]]
+            hits = [f for f in v["failed"] if d in f["flags"] and f["formula"] in info["formulas"]]
             if info.get("observation") and v["accepted"] == 1 and not tr["diverged"]:
                 entry["confirmed_on_code"] = True
                 entry["history"] = [f"{x['a']}({x['c']},{x['arg']})" for x in labs]
@@ -1188,11 +1190,11 @@ def run(pid: str, tier: str, seed: int) -> int:
             if v["accepted"] == 1 and hits and not tr["diverged"]:
                 entry["confirmed_on_code"] = True
                 entry["history"] = [f"{x['a']}({x['c']},{x['arg']})" for x in labs]
-                for formula in sorted({f["formula"] for f in hits}):
+                for formula, flags in sorted({(f["formula"], tuple(f["flags"])) for f in hits}):
                     rep.violation(
                         f"{formula} fails on the real SqliteQueue along TLC's counter-example for defect '{d}': "
                         + " ".join(entry["history"]),
-                        {"formula": formula, "flags": [d], "history": labs, "source": "model-cex-on-code"},
+                        {"formula": formula, "flags": list(flags), "history": labs, "source": "model-cex-on-code"},
                         {"kind": "labels", "clients": clients, "nmsgs": info["cex"]["nmsgs"], "labels": labs,
                          "switches": dict(AS_CODED), "formula": formula, "qmax": info["qmax"]})
                 continue
@@ -1203,13 +1205,14 @@ def run(pid: str, tier: str, seed: int) -> int:
                 return len(tr["events"]) + 1 if vv["accepted"] == 1 else vv["rejected"][0]["at"]
 
             vb = v if switches == AS_CODED else judge((d, info, labs, clients, tr), switches)
-            if vb["accepted"] == 1 and not tr["diverged"] and (info.get("observation") or [f for f in vb["failed"] if d in f["flags"]]):
+            hits_b = [f for f in vb["failed"] if d in f["flags"] and f["formula"] in info["formulas"]]
+            if vb["accepted"] == 1 and not tr["diverged"] and (info.get("observation") or hits_b):
                 entry["confirmed_on_code"] = True
                 entry["history"] = [f"{x['a']}({x['c']},{x['arg']})" for x in labs]
                 if not info.get("observation"):
-                    for formula in sorted({f["formula"] for f in vb["failed"] if d in f["flags"]}):
+                    for formula, flags in sorted({(f["formula"], tuple(f["flags"])) for f in hits_b}):
                         rep.violation(f"{formula} fails on the real SqliteQueue along TLC's counter-example for defect '{d}'",
-                                      {"formula": formula, "flags": [d], "history": labs, "source": "model-cex-on-code"},
+                                      {"formula": formula, "flags": list(flags), "history": labs, "source": "model-cex-on-code"},
                                       {"kind": "labels", "clients": clients, "nmsgs": info["cex"]["nmsgs"], "labels": labs,
                                        "switches": dict(switches), "formula": formula, "qmax": info["qmax"]})
                 continue
@@ -1435,6 +1438,13 @@ def run(pid: str, tier: str, seed: int) -> int:
                 p_.terminate()
                 p_.join()
         shutil.rmtree(base, ignore_errors=True)
+    from . import evidence as _ev
+    import glob
+    for old_file in glob.glob(os.path.join(_ev.REPLAY, f"{pid}-viol*.json")):     # replay files of earlier runs
+        try:
+            os.remove(old_file)
+        except OSError:
+            pass
     rc = rep.finish()
     write_evidence(pid, tier, seed, "model_checking", cov, _time.time() - t0, violations=len(rep.violations),
                    assumptions=["time is abstract: locks / delays elapse by harness UPDATEs, never by sleeping",
